@@ -1,6 +1,7 @@
 import PdtVerif.Lemmas.StringMatch
 import PdtVerif.Lemmas.StringMatchBatch
 import PdtVerif.Lemmas.StringMatchOracle
+import PdtVerif.Lemmas.StringMatchModule
 /-!
 # C01 — edit distance is the weighted Levenshtein distance, per pair and per prefix
 
@@ -652,5 +653,213 @@ example := C01_batch_lens_ties (2 : Int) 2 [[7, 5], [2, 9], [2, 9]] (by simp [Wi
     · exact ⟨by decide, by decide⟩)
 -- C01_oracle_prefix applied
 example := (C01_oracle_prefix ⟨1/2, 1, 3/2⟩ [(7 : Int), 7, 2] [7, 2]).2 1 (by decide)
+
+/-! ## The module layer (third improvement round): `EditDistance` / `PrefixEditDistances` as objects
+
+`Model/StringMatchModule.lean`: the object is the record of its public attributes, `module.attr = v` replaces
+one field, `forward` is the functional on the fields as they are AT THE TIME OF THE CALL and does not change
+the object. The theorems below say what a module that has been re-tuned after construction computes - in
+terms of the values written last - and compose with the distance theorems above. (What ties this model to
+`_string.py::EditDistance.forward` is the correspondence: the harness constructs modules with other values,
+calls them, reassigns the public attributes and calls again; the driver runs this model on the same history.) -/
+
+/-- **C01_module_current**: after ANY sequence of assignments the object is exactly the object that a fresh
+construction with the last-written values (construction-time values where nothing was written) gives. -/
+theorem C01_module_current (m : SMModule α) (as : List (Assign α)) : m.assignAll as = m.current as :=
+  assignAll_eq_current m as
+
+/-- **C01_module_assign_all**: assigning all ten public attributes to any existing object, in any order that
+lists each once (here: the constructor's order), gives the object constructed with those values: nothing of
+the old object survives. -/
+theorem C01_module_assign_all (m v : SMModule α) :
+    m.assignAll [.eos v.eos, .includeEos v.includeEos, .norm v.norm, .batchFirst v.batchFirst,
+      .insCost v.insCost, .delCost v.delCost, .subCost v.subCost, .padding v.padding,
+      .excludeLast v.excludeLast, .warn v.warn] = v := by
+  cases v; rfl
+
+/-- **C01_module_fresh**: assignment after construction ≡ construction with that value, for what `forward`
+computes: two objects with arbitrary histories whose last-written values agree on the attributes `forward`
+reads return the same result on every batch - `EditDistance` (`warn`, and the attributes it does not have, are
+free) and `PrefixEditDistances` (`warn` is free). In particular (`as₂ = []`) a re-tuned object and a freshly
+constructed one. -/
+theorem C01_module_fresh (m₁ m₂ : SMModule α) (as₁ as₂ : List (Assign α)) (ref hyp : Tensor2 α) (dα : α)
+    (h1 : lastWrite Assign.eos? as₁ m₁.eos = lastWrite Assign.eos? as₂ m₂.eos)
+    (h2 : lastWrite Assign.includeEos? as₁ m₁.includeEos = lastWrite Assign.includeEos? as₂ m₂.includeEos)
+    (h3 : lastWrite Assign.norm? as₁ m₁.norm = lastWrite Assign.norm? as₂ m₂.norm)
+    (h4 : lastWrite Assign.batchFirst? as₁ m₁.batchFirst = lastWrite Assign.batchFirst? as₂ m₂.batchFirst)
+    (h5 : lastWrite Assign.insCost? as₁ m₁.insCost = lastWrite Assign.insCost? as₂ m₂.insCost)
+    (h6 : lastWrite Assign.delCost? as₁ m₁.delCost = lastWrite Assign.delCost? as₂ m₂.delCost)
+    (h7 : lastWrite Assign.subCost? as₁ m₁.subCost = lastWrite Assign.subCost? as₂ m₂.subCost) :
+    (m₁.assignAll as₁).forwardED ref hyp dα = (m₂.assignAll as₂).forwardED ref hyp dα
+    ∧ (lastWrite Assign.padding? as₁ m₁.padding = lastWrite Assign.padding? as₂ m₂.padding →
+       lastWrite Assign.excludeLast? as₁ m₁.excludeLast = lastWrite Assign.excludeLast? as₂ m₂.excludeLast →
+       (m₁.assignAll as₁).forwardPED ref hyp dα = (m₂.assignAll as₂).forwardPED ref hyp dα) := by
+  rw [assignAll_eq_current, assignAll_eq_current]
+  refine ⟨?_, fun h8 h9 => ?_⟩
+  · simp only [SMModule.forwardED, SMModule.current, SMModule.costs, h1, h2, h3, h4, h5, h6, h7]
+  · simp only [SMModule.forwardPED, SMModule.current, SMModule.costs, h1, h2, h3, h4, h5, h6, h7, h8, h9]
+
+/-- **C01_module_pair**: what a re-tuned `EditDistance` object reports. For any construction-time values `m₀`
+and any sequence of assignments, on every well-shaped batch (any `N`, `R`, `H`; the layout the object's
+CURRENT `batch_first` says) the call succeeds and pair `n` is the weighted edit distance - attained by a
+script, below every script - of ITS sequences cut at the CURRENT `eos` / `include_eos`, under the cost
+triple WRITTEN LAST (not the one the object was constructed with). (`norm` currently off; `C01_module_norm`
+for on.) -/
+theorem C01_module_pair (m₀ : SMModule α) (as : List (Assign α)) (ref hyp : Tensor2 α) (dα : α)
+    (hr : ref.WF) (hh : hyp.WF) (N : Nat)
+    (hN : batchSize (lastWrite Assign.batchFirst? as m₀.batchFirst) ref = N)
+    (hN' : batchSize (lastWrite Assign.batchFirst? as m₀.batchFirst) hyp = N)
+    (hnorm : lastWrite Assign.norm? as m₀.norm = false) :
+    ∃ out, (m₀.assignAll as).forwardED ref hyp dα = .ok out ∧ out.length = N ∧
+      ∀ n, n < N → ∃ v, out[n]? = some v ∧
+        IsLevDist ⟨lastWrite Assign.insCost? as m₀.insCost, lastWrite Assign.delCost? as m₀.delCost,
+                   lastWrite Assign.subCost? as m₀.subCost⟩
+          (cut (lastWrite Assign.eos? as m₀.eos) (lastWrite Assign.includeEos? as m₀.includeEos)
+            (seqOf (lastWrite Assign.batchFirst? as m₀.batchFirst) ref n dα))
+          (cut (lastWrite Assign.eos? as m₀.eos) (lastWrite Assign.includeEos? as m₀.includeEos)
+            (seqOf (lastWrite Assign.batchFirst? as m₀.batchFirst) hyp n dα)) v := by
+  rw [assignAll_eq_current]
+  simp only [SMModule.forwardED, SMModule.current, SMModule.costs, hnorm]
+  exact C01_batch_pair _ _ _ _ ref hyp dα hr hh N hN hN'
+
+/-- **C01_module_norm**: with `norm` currently on, pair `n` is that distance divided by the length of ITS cut
+reference (cut at the current `eos` / `include_eos`). -/
+theorem C01_module_norm (m₀ : SMModule α) (as : List (Assign α)) (ref hyp : Tensor2 α) (dα : α)
+    (hr : ref.WF) (hh : hyp.WF) (N : Nat)
+    (hN : batchSize (lastWrite Assign.batchFirst? as m₀.batchFirst) ref = N)
+    (hN' : batchSize (lastWrite Assign.batchFirst? as m₀.batchFirst) hyp = N)
+    (hnorm : lastWrite Assign.norm? as m₀.norm = true) :
+    ∃ out, (m₀.assignAll as).forwardED ref hyp dα = .ok out ∧
+      ∀ n, n < N →
+        cut (lastWrite Assign.eos? as m₀.eos) (lastWrite Assign.includeEos? as m₀.includeEos)
+            (seqOf (lastWrite Assign.batchFirst? as m₀.batchFirst) ref n dα) ≠ [] →
+        out[n]? = some (lev ⟨lastWrite Assign.insCost? as m₀.insCost, lastWrite Assign.delCost? as m₀.delCost,
+                             lastWrite Assign.subCost? as m₀.subCost⟩
+          (cut (lastWrite Assign.eos? as m₀.eos) (lastWrite Assign.includeEos? as m₀.includeEos)
+            (seqOf (lastWrite Assign.batchFirst? as m₀.batchFirst) ref n dα))
+          (cut (lastWrite Assign.eos? as m₀.eos) (lastWrite Assign.includeEos? as m₀.includeEos)
+            (seqOf (lastWrite Assign.batchFirst? as m₀.batchFirst) hyp n dα))
+          / ((cut (lastWrite Assign.eos? as m₀.eos) (lastWrite Assign.includeEos? as m₀.includeEos)
+            (seqOf (lastWrite Assign.batchFirst? as m₀.batchFirst) ref n dα)).length : Rat)) := by
+  rw [assignAll_eq_current]
+  simp only [SMModule.forwardED, SMModule.current, SMModule.costs, hnorm]
+  exact C01_batch_norm _ _ _ _ ref hyp dα hr hh N hN hN'
+
+/-- **C01_module_prefix**: what a re-tuned `PrefixEditDistances` object reports (`norm` currently off): the
+table has the shape the CURRENT `batch_first` / `exclude_last` say, entry `k` of pair `n`'s line is the
+weighted distance between its cut reference and the length-`k` prefix of its cut hypothesis under the costs
+written last, and the padding value WRITTEN LAST beyond the hypothesis's own length. -/
+theorem C01_module_prefix (m₀ : SMModule α) (as : List (Assign α)) (ref hyp : Tensor2 α) (dα : α)
+    (hr : ref.WF) (hh : hyp.WF) (N : Nat)
+    (hN : batchSize (lastWrite Assign.batchFirst? as m₀.batchFirst) ref = N)
+    (hN' : batchSize (lastWrite Assign.batchFirst? as m₀.batchFirst) hyp = N)
+    (hnorm : lastWrite Assign.norm? as m₀.norm = false) :
+    let bf := lastWrite Assign.batchFirst? as m₀.batchFirst
+    let excl := lastWrite Assign.excludeLast? as m₀.excludeLast
+    let eos := lastWrite Assign.eos? as m₀.eos
+    let inc := lastWrite Assign.includeEos? as m₀.includeEos
+    let c : Costs := ⟨lastWrite Assign.insCost? as m₀.insCost, lastWrite Assign.delCost? as m₀.delCost,
+                      lastWrite Assign.subCost? as m₀.subCost⟩
+    ∃ T, (m₀.assignAll as).forwardPED ref hyp dα = .ok T
+      ∧ batchSize bf T = N
+      ∧ (if bf then T.d1 else T.d0) = (if bf then hyp.d1 else hyp.d0) + (if excl then 0 else 1)
+      ∧ ∀ n, n < N → ∀ k,
+          (k < (cut eos inc (seqOf bf hyp n dα)).length + (if excl then 0 else 1) →
+            (seqOf bf T n 0)[k]?
+              = some (lev c (cut eos inc (seqOf bf ref n dα)) ((cut eos inc (seqOf bf hyp n dα)).take k)))
+          ∧ ((cut eos inc (seqOf bf hyp n dα)).length + (if excl then 0 else 1) ≤ k →
+              k < (seqOf bf hyp n dα).length + (if excl then 0 else 1) →
+            (seqOf bf T n 0)[k]? = some ((lastWrite Assign.padding? as m₀.padding : Int) : Rat)) := by
+  intro bf excl eos inc c
+  rw [assignAll_eq_current]
+  simp only [SMModule.forwardPED, SMModule.current, SMModule.costs, hnorm]
+  exact C01_batch_prefix c eos inc bf excl _ ref hyp dα hr hh N hN hN'
+
+/-- **C01_module_session**: a program that uses ONE module object - assignments and calls interleaved in
+any way, `forward` any function of the object's attributes and the batch. Calls never change the object (at
+the end it is what the assignments alone make it); there is one result per call; and the result of a call is
+`forward` of the object as the assignments BEFORE that call left it - it does not depend on earlier calls
+(their batches, their shapes), on later statements, or on overwritten values. -/
+theorem C01_module_session {β : Type} (fwd : SMModule α → Tensor2 α → Tensor2 α → β) (m : SMModule α) :
+    (∀ es : List (Event α), (runSession fwd m es).1 = m.current (assignsOf es)
+        ∧ (runSession fwd m es).2.length = callCount es)
+    ∧ ∀ (pre post : List (Event α)) (r h : Tensor2 α),
+        (runSession fwd m (pre ++ .call r h :: post)).2[callCount pre]?
+          = some (fwd (m.current (assignsOf pre)) r h) := by
+  refine ⟨fun es => ⟨?_, runSession_length fwd m es⟩, fun pre post r h => ?_⟩
+  · rw [runSession_fst, assignAll_eq_current]
+  · rw [runSession_call, assignAll_eq_current]
+
+/-- **C01_module_session_pair**: the two composed - in any program using one `EditDistance` object, the
+number reported for pair `n` by the call that follows the statements `pre` is the weighted edit distance of
+that pair's cut sequences under the costs / eos / include_eos / batch_first written last BEFORE the call
+(`norm` off at that moment). -/
+theorem C01_module_session_pair (m₀ : SMModule α) (pre post : List (Event α)) (ref hyp : Tensor2 α) (dα : α)
+    (hr : ref.WF) (hh : hyp.WF) (N : Nat)
+    (hN : batchSize (lastWrite Assign.batchFirst? (assignsOf pre) m₀.batchFirst) ref = N)
+    (hN' : batchSize (lastWrite Assign.batchFirst? (assignsOf pre) m₀.batchFirst) hyp = N)
+    (hnorm : lastWrite Assign.norm? (assignsOf pre) m₀.norm = false) :
+    ∃ out, (runSession (fun m r h => m.forwardED r h dα) m₀ (pre ++ .call ref hyp :: post)).2[callCount pre]?
+        = some (.ok out) ∧ out.length = N ∧
+      ∀ n, n < N → ∃ v, out[n]? = some v ∧
+        IsLevDist ⟨lastWrite Assign.insCost? (assignsOf pre) m₀.insCost,
+                   lastWrite Assign.delCost? (assignsOf pre) m₀.delCost,
+                   lastWrite Assign.subCost? (assignsOf pre) m₀.subCost⟩
+          (cut (lastWrite Assign.eos? (assignsOf pre) m₀.eos) (lastWrite Assign.includeEos? (assignsOf pre) m₀.includeEos)
+            (seqOf (lastWrite Assign.batchFirst? (assignsOf pre) m₀.batchFirst) ref n dα))
+          (cut (lastWrite Assign.eos? (assignsOf pre) m₀.eos) (lastWrite Assign.includeEos? (assignsOf pre) m₀.includeEos)
+            (seqOf (lastWrite Assign.batchFirst? (assignsOf pre) m₀.batchFirst) hyp n dα)) v := by
+  obtain ⟨out, ho, hl, hp⟩ := C01_module_pair m₀ (assignsOf pre) ref hyp dα hr hh N hN hN' hnorm
+  refine ⟨out, ?_, hl, hp⟩
+  rw [runSession_call, ho]
+
+/-- **C01_module_last_write**: what "written last" means, spelled out: a value written into an attribute and
+followed only by writes to OTHER attributes is the value it holds; an attribute never written holds its
+construction-time value. -/
+theorem C01_module_last_write {β γ : Type} (sel : γ → Option β) (as bs : List γ) (a : γ) (v d : β)
+    (ha : sel a = some v) (h : ∀ b ∈ bs, sel b = none) :
+    lastWrite sel (as ++ a :: bs) d = v ∧ lastWrite sel bs d = d :=
+  ⟨lastWrite_last sel as bs a v d ha h, lastWrite_none sel bs d h⟩
+
+/-! ### Non-vacuity of the module theorems: an object constructed with the defaults, called, re-tuned
+(costs, eos, batch_first), called again -/
+
+/-- `m = EditDistance()`; then `m.ins_cost, m.del_cost, m.sub_cost = 1/2, 1, 3/2; m.eos = 2; m.batch_first = True`. -/
+def audAssigns : List (Assign Int) :=
+  [.insCost (1/2), .delCost 1, .warn false, .subCost (3/2), .eos (some 2), .delCost 1, .batchFirst true]
+
+example : (SMModule.newED (α := Int)).assignAll audAssigns
+    = SMModule.newED (some 2) false false true (1/2) 1 (3/2) false := by decide +kernel
+example := C01_module_current (SMModule.newED (α := Int)) audAssigns
+example := C01_module_assign_all (SMModule.newPED (α := Int)) (SMModule.newPED (some 2) false true true (1/2) 1 (3/2) 7 true false)
+example := (C01_module_fresh (SMModule.newED (α := Int)) (SMModule.newED (some 2) false false true (1/2) 1 (3/2) true)
+  audAssigns [] audRef audHyp 0 (by decide +kernel) (by decide +kernel) (by decide +kernel) (by decide +kernel)
+  (by decide +kernel) (by decide +kernel) (by decide +kernel)).1
+example := C01_module_pair (SMModule.newED (α := Int)) audAssigns audRef audHyp 0 audRef_wf audHyp_wf 2
+  (by decide +kernel) (by decide +kernel) (by decide +kernel)
+example := C01_module_norm (SMModule.newED (α := Int)) (audAssigns ++ [.norm true]) audRef audHyp 0 audRef_wf audHyp_wf 2
+  (by decide +kernel) (by decide +kernel) (by decide +kernel)
+example := C01_module_prefix (SMModule.newPED (α := Int)) (audAssigns ++ [.padding (-1), .includeEos false])
+  audRef audHyp 0 audRef_wf audHyp_wf 2 (by decide +kernel) (by decide +kernel) (by decide +kernel)
+-- the re-tuned object computes the distances under the NEW costs / eos / layout ([1, 1]; [1/2, 1] once `norm`
+-- is switched on as well), not what it computed before the assignments (unit costs, no eos, column-major: a
+-- batch-size error on this batch)
+example : ((SMModule.newED (α := Int)).assignAll audAssigns).forwardED audRef audHyp 0 = .ok [1, 1] := by
+  decide +kernel
+example : ((SMModule.newED (α := Int)).assignAll (audAssigns ++ [.norm true])).forwardED audRef audHyp 0
+    = .ok [1/2, 1] := by decide +kernel
+example : (((SMModule.newPED (α := Int)).assignAll (audAssigns ++ [.padding (-1), .includeEos false])).forwardPED
+    audRef audHyp 0).toOption.map (·.rows) = some [[2, 1, -1], [1, -1, -1]] := by decide +kernel
+example : (SMModule.newED (α := Int)).forwardED audRef audHyp 0 = .error "RuntimeError" := by decide +kernel
+-- a program: call, re-tune, call, re-tune one cost again, call: three results, each under the costs of ITS moment
+example : (runSession (fun m r h => m.forwardED r h 0) (SMModule.newED (α := Int) (batchFirst := true))
+      ([.call audRef audHyp] ++ audAssigns.map .assign ++ [.call audRef audHyp, .assign (.delCost 2), .call audRef audHyp])).2
+    = [.ok [1, 2], .ok [1, 1], .ok [2, 2]] := by decide +kernel
+example := (C01_module_session (fun m r h => m.forwardED r h (0 : Int)) (SMModule.newED (α := Int))).2
+  (audAssigns.map .assign) [.assign (.subCost 1)] audRef audHyp
+example := C01_module_session_pair (SMModule.newED (α := Int)) (.call audRef audRef :: audAssigns.map .assign)
+  [.assign (.subCost 1)] audRef audHyp 0 audRef_wf audHyp_wf 2 (by decide +kernel) (by decide +kernel) (by decide +kernel)
+example := C01_module_last_write Assign.delCost? (audAssigns.take 5) (audAssigns.drop 6) (.delCost (1 : Rat)) 1 7
+  rfl (by decide)
 
 end PdtVerif.StringMatch
